@@ -236,3 +236,83 @@ Definition seq_check (c : cfg) (prog : list ccall) (seen0 : list seen) : Z :=
       if finished c1 0 && outcomes_match (c_done (cl c1 0)) seen0 then -1 else -3
   | None => -2
   end.
+
+(* ------------------------------------------------------------------ programs with transaction blocks (one client)
+   A block `with cache.transact(): x1; ...; xn; [raise]` is the single machine call w_block of model/TxnBlock.v.  The
+   harness hands over the visible events of the whole block as those of one call (BEGIN, the body, the early
+   removals of the inner calls, COMMIT / ROLLBACK) and, as its outcome, the result of its last inner call.
+   Because inner calls release files before the commit decision, a row may end up referring to a file that is gone
+   (findings C06-F1/F2): the comparison with the disk therefore asks, row by row, that the file exists in the
+   directory exactly when the machine says so, and compares contents only then. *)
+From DC Require Import TxnBlock.
+
+Inductive bitem := BI (x : ccall) | BB (retry : bool) (xs : list ccall) (raises : bool).
+
+Fixpoint inner_wops (c : cfg) (xs : list ccall) : option (list cwop) :=
+  match xs with
+  | [] => Some []
+  | x :: r =>
+      match compile c (cc_retry x) (cc_op x) (cc_now x) (cc_pg x), inner_wops c r with
+      | Some (OWrite w), Some ws => if w_store w then None else Some (w :: ws)
+      | Some (ORead _), Some ws => Some ws
+      | _, _ => None
+      end
+  end.
+
+Definition compile_bitem (c : cfg) (b : bitem) : option mop :=
+  match b with
+  | BI x => compile c (cc_retry x) (cc_op x) (cc_now x) (cc_pg x)
+  | BB retry xs raises => match inner_wops c xs with Some ws => Some (OWrite (w_block retry ws raises)) | None => None end
+  end.
+
+Fixpoint compile_bitems (c : cfg) (l : list bitem) : option (list mop) :=
+  match l with
+  | [] => Some []
+  | b :: r => match compile_bitem c b, compile_bitems c r with
+              | Some o, Some os => Some (o :: os)
+              | _, _ => None
+              end
+  end.
+
+Definition row_disk_eqb (c : mconfig) (r : row) (o : row * option fcontent) : bool :=
+  let '(x, fc) := o in
+  (rowid r =? rowid x) && sql_same (rkey r) (rkey x) && Bool.eqb (rraw r) (rraw x)
+  && (store_time r =? store_time x) && optz_eqb (expire_time r) (expire_time x)
+  && (access_time r =? access_time x) && (access_count r =? access_count x)
+  && sql_same (rtag r) (rtag x) && (rsize r =? rsize x) && (rmode r =? rmode x)
+  && Bool.eqb (is_some (rfile r)) (is_some (rfile x)) && sql_same (rvalue r) (rvalue x)
+  && match rfile r with
+     | None => is_none fc
+     | Some g => if fstate_done (files c g) then fcontent_eqb (fs_lookup (db c) (rfile r)) fc else is_none fc
+     end.
+Fixpoint rows_disk_eqb (c : mconfig) (t : list row) (l : list (row * option fcontent)) : bool :=
+  match t, l with
+  | [], [] => true
+  | r :: t', o :: l' => row_disk_eqb c r o && rows_disk_eqb c t' l'
+  | _, _ => false
+  end.
+Definition disk_matches_b (c : mconfig) (o : obs) : bool :=
+  let s := db c in
+  rows_disk_eqb c (rows s) (o_rows o)
+  && (n_count s =? o_count o) && (n_size s =? o_size o) && (n_hits s =? o_hits o) && (n_misses s =? o_misses o)
+  && (count_files c (Z.to_nat (supply c)) =? o_nfiles o)
+  && is_none (lock c).
+
+(* -1 agreement; -2 outside the instance; n >= 0 the n-th event cannot be followed; -3 outcomes differ; -100 disk differs *)
+Definition block_check (c : cfg) (s0 : st) (setup : list ccall) (prog : list bitem) (events : list (nat * tag))
+           (seen0 : list seen) (final : obs) : Z :=
+  match compile_all c setup, compile_bitems c prog with
+  | Some su, Some p =>
+      let c0 := init_config s0 (prog_fun [p] su) in
+      let c1 := solo (20 * S (length su)) c0 1 in
+      if negb (finished c1 1) then -2
+      else match feed c1 0 events with
+           | inr k => k
+           | inl c2 =>
+               let c3 := settle SILENT_FUEL c2 0 in
+               if finished c3 0 && outcomes_match (c_done (cl c3 0)) seen0
+               then (if disk_matches_b c3 final then -1 else -100)
+               else -3
+           end
+  | _, _ => -2
+  end.
